@@ -16,8 +16,21 @@ class Outcome:
         self.notes = []
 
 
+_cleaned = set()
+
+
 def write_replay(prop, rid, obj):
     d = os.path.join(REPLAY, prop)
+    if prop not in _cleaned:
+        # replay files of earlier runs (other trees, other seeds) would only mislead: a run leaves exactly its own
+        _cleaned.add(prop)
+        if os.path.isdir(d) and not os.environ.get("VERIF_KEEP_REPLAYS"):
+            for fn in os.listdir(d):
+                if fn.endswith(".json"):
+                    try:
+                        os.unlink(os.path.join(d, fn))
+                    except OSError:
+                        pass
     os.makedirs(d, exist_ok=True)
     p = os.path.join(d, "%s.json" % rid)
     dump_json(p, obj)
